@@ -46,7 +46,7 @@ SPAWN_RAISE = {
     "fork_enomem": (OSError, errno.ENOMEM),
     "fork_eagain": (BlockingIOError, errno.EAGAIN),
 }
-REAL_FAULTS = ("remove", "mkdir_in_place", "replace")
+REAL_FAULTS = ("remove", "mkdir_in_place", "replace", "dangling_symlink")
 
 
 def seam_of(kind: str) -> str:
@@ -680,6 +680,10 @@ def _apply_real_faults(sim: Sim, faults):
             if saved is not None:
                 os.remove(path)
             os.makedirs(path, exist_ok=True)
+        elif kind == "dangling_symlink":
+            if saved is not None:
+                os.remove(path)
+            os.symlink("target-that-was-removed", path)
         elif kind == "replace":
             os.makedirs(os.path.dirname(path), exist_ok=True)
             with _REAL_OPEN(path, "wb") as fh:
@@ -692,6 +696,8 @@ def _undo_real_faults(sim: Sim, undo):
     for idx, kind, path, saved, was_dir in reversed(undo):
         if kind == "mkdir_in_place" and not was_dir:
             shutil.rmtree(path, ignore_errors=True)
+        if kind == "dangling_symlink" and os.path.islink(path):
+            os.remove(path)
         if was_dir and kind in ("replace", "remove"):
             if os.path.isfile(path):
                 os.remove(path)
@@ -735,6 +741,8 @@ def parse_cli_stderr(text: str):
 
 
 _CFG_CACHE: dict = {}
+_MACRO_LISTS: dict = {}
+_SHARED_CFG = None
 _HELD_MOP = None
 _HELD_KEY = None
 _HELD_FRESH = False
@@ -753,6 +761,24 @@ def _exec_match(op):
         cached = _CFG_CACHE.get(key)
     else:
         cached = None
+    macros_arg = list(op["macros"]) if op.get("macros") else None
+    if macros_arg is not None and op.get("shared_macro_list"):
+        # the caller defined its list of macro libraries once and passes that very list to every operation
+        macros_arg = _MACRO_LISTS.setdefault(tuple(macros_arg), macros_arg)
+    if op.get("shared_config") and cached is None:
+        # the caller keeps ONE MatchConfig object and updates its fields for every operation
+        global _SHARED_CFG
+        fields = dict(pattern_pathstr=op["rule"], input_file=op["input"],
+                      input_file_type=InputFileType.binary if op.get("type") == "binary" else InputFileType.assembly,
+                      return_only_address=bool(op.get("only_addr", False)), return_mode=ret,
+                      matching_mode=MatchingSearchMode.all_finds if op.get("search") == "all" else MatchingSearchMode.first_find,
+                      macros=macros_arg)
+        if _SHARED_CFG is None:
+            _SHARED_CFG = MatchConfig(**fields)
+        else:
+            for k_, v_ in fields.items():
+                setattr(_SHARED_CFG, k_, v_)
+        cached = _SHARED_CFG
     cfg = cached or MatchConfig(
         pattern_pathstr=op["rule"],
         input_file=op["input"],
@@ -760,7 +786,7 @@ def _exec_match(op):
         return_only_address=bool(op.get("only_addr", False)),
         return_mode=ret,
         matching_mode=MatchingSearchMode.all_finds if op.get("search") == "all" else MatchingSearchMode.first_find,
-        macros=list(op["macros"]) if op.get("macros") else None,
+        macros=macros_arg,
     )
     if key is not None:
         _CFG_CACHE[key] = cfg
@@ -787,6 +813,14 @@ def _exec_match(op):
             value = MasterOfPuppets(match_config=cfg).perform_matching()
     except BaseException as e:  # noqa: BLE001 - every way of not returning is an outcome
         return ["exc", type(e).__name__, SIM.norm(str(e))[:300]]
+    # the object itself is kept, as a caller would keep it: it is looked at (again) when the history is over
+    return ["ret", value]
+
+
+def _sanitize_outcome(oc):
+    if not oc or oc[0] != "ret":
+        return oc
+    value = oc[1]
     if isinstance(value, (bool, str)) or value is None:
         return ["ret", value]
     if isinstance(value, (list, tuple)):
@@ -860,6 +894,31 @@ def _exec_write(sim, op):
     return ["ok"]
 
 
+def _set_env(sim, op):
+    """op["env"] = {NAME: value | None}: the environment the process was started in ({W} = world directory)."""
+    env = op.get("env")
+    if not env:
+        return None
+    saved = {}
+    for k, v in env.items():
+        saved[k] = os.environ.get(k)
+        if v is None:
+            os.environ.pop(k, None)
+        else:
+            os.environ[k] = str(v).replace("{W}", sim.root)
+    return saved
+
+
+def _restore_env(saved):
+    if not saved:
+        return
+    for k, v in saved.items():
+        if v is None:
+            os.environ.pop(k, None)
+        else:
+            os.environ[k] = v
+
+
 def _feed_stdin(sim, op):
     """op["stdin_pipe"] = world file whose bytes arrive on a PIPE at fd 0 (for inputs such as /dev/stdin)."""
     rel = op.get("stdin_pipe")
@@ -929,6 +988,7 @@ def child_main(root: str, ops: list, seed: int, opts: dict | None = None) -> dic
         if kind == "write":
             oc = _exec_write(sim, op)
         else:
+            saved_env = _set_env(sim, op)
             saved_stdin = _feed_stdin(sim, op)
             with sim.harness():
                 undo = _apply_real_faults(sim, sim.faults)
@@ -945,6 +1005,7 @@ def child_main(root: str, ops: list, seed: int, opts: dict | None = None) -> dic
             finally:
                 sim.in_op = False
                 _restore_stdin(saved_stdin)
+                _restore_env(saved_env)
                 with sim.harness():
                     _undo_real_faults(sim, undo)
             # a real-fs fault holds for the whole operation whatever API the code uses (or does not
@@ -952,10 +1013,11 @@ def child_main(root: str, ops: list, seed: int, opts: dict | None = None) -> dic
             for idx, kindf, path, _s, _d in undo:
                 sim.fire(idx)
         outcomes.append(oc)
-        sim.event("op_end", outcome=_outcome_digest(oc))
+        sim.event("op_end", outcome=_outcome_digest(_sanitize_outcome(oc)))
     if sim.tmpdir:
         shutil.rmtree(sim.tmpdir, ignore_errors=True)
     sys.stdout, sys.stderr = real_stdout, real_stderr
+    outcomes = [_sanitize_outcome(oc) for oc in outcomes]  # what the caller's kept results look like NOW
     return {
         "outcomes": outcomes,
         "events": sim.events,
